@@ -332,3 +332,230 @@ def random_cases(rng, n, n_draws, allow_broadcast_target=True, values=gen.DYADIC
                 target, tree, _, _ = gen.rename(target, tree, rng)
         for _ in range(n_draws):
             yield build_case(rng, target, tree, None, values, origin="random")
+
+
+# --------------------------------------------------------------------------- merge-lattice stress
+
+
+def lattice_case(rng, values=gen.DYADIC, max_refs=6):
+    """Co-iteration stress: one loop level (or two) shared by 3-5 distinct operands in a random
+    expression tree of depth <= 4 with literals, mostly compressed operands and output, a longer
+    index range (5..9) and inputs whose supports are intervals of different extent - so operands run
+    out at different positions and every branch of the merge lattice (which loops exist, in which
+    order, which `else if` arm is taken) is driven, not only the first one."""
+    order = 1 if rng.random() < 0.7 else 2
+    idx = ("i",) if order == 1 else ("i", "j")
+    k = rng.randint(3, 5)
+    names = ["b", "c", "d", "e", "f"][:k]
+    unused = list(names)
+
+    def leaf():
+        if rng.random() < 0.13:
+            return ("n", rng.choice(gen.LITERALS))
+        n = unused.pop(rng.randrange(len(unused))) if unused else rng.choice(names)
+        ref = idx if order == 1 or rng.random() < 0.8 else (idx[1], idx[0])
+        return ("t", n, ref)
+
+    def tree(depth):
+        if depth <= 0 or (depth < 3 and rng.random() < 0.3):
+            return leaf()
+        op = rng.choice(["+", "+", "+", "*", "*", "*", "-"])
+        return (op, tree(depth - 1), tree(depth - 1))
+
+    # the kernel has one `else if` arm per subset of co-iterated sparse references: size and generation
+    # time double with every reference (9 references exceed CPython's recursion limit in the peephole
+    # pass - known finding of C08), so the stress stays at <= max_refs references
+    for _ in range(50):
+        unused = list(names)
+        e = tree(rng.randint(2, 3))
+        n_refs = sum(len(v) for v in gen.tensors_of(e).values())
+        if len(gen.tensors_of(e)) >= 2 and n_refs <= max_refs:
+            break
+    else:
+        e = ("+", ("*", ("t", "b", idx), ("+", ("t", "c", idx), ("n", "1"))), ("t", "d", idx))
+    target = ("t", "a", idx)
+    orders = gen.tensor_orders(target, e)
+    formats = {}
+    for n, o in orders.items():
+        if rng.random() < 0.75:
+            modes = "s" * o
+        else:
+            modes = "".join(rng.choice("ds") for _ in range(o))
+        ordering = list(range(o))
+        if o == 2 and rng.random() < 0.2:
+            ordering = [1, 0]
+        formats[n] = taco.fmt_text(tuple(modes), tuple(ordering))
+    ordered = {target[1]: formats[target[1]]}
+    for n in gen.tensors_of(e):
+        ordered[n] = formats[n]
+    size_i = rng.randint(5, 9) if order == 1 else rng.randint(3, 5)
+    sizes = {"i": size_i}
+    if order == 2:
+        sizes["j"] = size_i  # transposed references force a square index space
+    dims = gen.tensor_dims(target, e, sizes)
+    inputs = {}
+    for n in gen.tensors_of(e):
+        d = dims[n]
+        lo = rng.randint(0, d[0] - 1)
+        hi = rng.randint(lo, d[0])
+        dens = rng.choice([0.5, 0.8, 1.0])
+        ent = {}
+        import itertools
+
+        for c in itertools.product(*(range(x) for x in d)):
+            if lo <= c[0] < hi and rng.random() < dens:
+                ent[c] = 0.0 if rng.random() < 0.05 else rng.choice(values)
+        inputs[n] = ent
+    cap = rng.choice(gen.CAPACITIES)
+    return Case(gen.show_assignment(target, e), ordered, sizes, inputs, cap, "lattice", target, e)
+
+
+def lattice_cases(rng, n, draws=3, values=gen.DYADIC):
+    """n assignments x `draws` input sets each (the same assignment and formats, fresh supports)."""
+    for _ in range(n):
+        base = lattice_case(rng, values)
+        yield base
+        dims = gen.tensor_dims(base.target, base.tree, base.sizes)
+        for _ in range(draws - 1):
+            inputs = {}
+            for name in base.inputs:
+                d = dims[name]
+                lo = rng.randint(0, d[0] - 1)
+                hi = rng.randint(lo, d[0])
+                import itertools
+
+                inputs[name] = {c: rng.choice(values) for c in itertools.product(*(range(x) for x in d))
+                                if lo <= c[0] < hi and rng.random() < 0.8}
+            yield Case(base.assignment, base.formats, base.sizes, inputs, rng.choice(gen.CAPACITIES), "lattice", base.target, base.tree)
+
+
+# --------------------------------------------------------------------------- bounded-exhaustive small shapes
+
+
+def _trees(n_leaves):
+    """All binary tree shapes with n leaves, as nested tuples of None leaves."""
+    if n_leaves == 1:
+        return [None]
+    out = []
+    for k in range(1, n_leaves):
+        for l in _trees(k):
+            for r in _trees(n_leaves - k):
+                out.append((l, r))
+    return out
+
+
+def small_shapes(max_leaves=5):
+    """EVERY expression a(i) = <tree> with 2..max_leaves leaves over distinct vectors b,c,d,.. (at most
+    one leaf a literal, at any position), every assignment of + and * to the inner nodes: 1 582 trees
+    for max_leaves = 5.  This is the space in which one loop level co-iterates up to five operands, so
+    every small merge lattice - and every order in which its loops and `else if` arms can be emitted -
+    is in the workload by construction rather than by luck."""
+    import itertools
+
+    names = ["b", "c", "d", "e", "f"]
+    out = []
+    for n in range(2, max_leaves + 1):
+        for shape in _trees(n):
+            for ops in itertools.product("+*", repeat=n - 1):
+                for lit_pos in [None] + list(range(n)):
+                    leaves = []
+                    k = 0
+                    for pos in range(n):
+                        if pos == lit_pos:
+                            leaves.append(("n", "2"))
+                        else:
+                            leaves.append(("t", names[k], ("i",)))
+                            k += 1
+                    if k < 2:
+                        continue
+                    it_leaf = iter(leaves)
+                    it_op = iter(ops)
+
+                    def build(sh):
+                        if sh is None:
+                            return next(it_leaf)
+                        l = build(sh[0])
+                        op = next(it_op)
+                        r = build(sh[1])
+                        return (op, l, r)
+
+                    out.append(build(shape))
+    return out
+
+
+def small_shape_cases(rng, index, n_shards, draws=5, values=gen.DYADIC, out_modes=("s",)):
+    """Cases for this shard's slice of small_shapes(): all operands compressed, each shape with `draws`
+    input sets whose supports are prefixes [0, h) of different length per operand (thinned), so that the
+    operands run out in different orders from one draw to the next."""
+    target = ("t", "a", ("i",))
+    shapes = small_shapes()
+    for k, tree in enumerate(shapes):
+        if k % n_shards != index:
+            continue
+        if rng.random() < 0.25:
+            # the same shape with one '+' turned into '-'
+            def flip(e, state=[rng.randint(0, 3)]):
+                if e[0] in ("t", "n"):
+                    return e
+                l = flip(e[1])
+                op = e[0]
+                if op == "+":
+                    if state[0] == 0:
+                        op = "-"
+                    state[0] -= 1
+                return (op, l, flip(e[2]))
+
+            tree = flip(tree)
+        names = list(gen.tensors_of(tree))
+        n = 8
+        for d in range(draws):
+            fm = {"a": out_modes[d % len(out_modes)]}
+            for nm in names:
+                fm[nm] = "s"
+            cuts = list(range(2, n + 1))
+            rng.shuffle(cuts)
+            inputs = {}
+            for j, nm in enumerate(names):
+                h = cuts[j % len(cuts)] if d < draws - 1 else n
+                dens = 1.0 if d == 0 else 0.75
+                inputs[nm] = {(c,): rng.choice(values) for c in range(h) if rng.random() < dens}
+            if d == draws - 2 and names:
+                inputs[names[rng.randrange(len(names))]] = {}
+            yield Case(gen.show_assignment(target, tree), fm, {"i": n}, inputs, rng.choice(gen.CAPACITIES), "small-shapes", target, tree)
+
+
+# --------------------------------------------------------------------------- every output format
+
+
+OUTPUT_SHAPES = ["A(i,j,k) = B(i,j,k)", "A(i,j,k) = B(i,j,k) + C(i,j,k)", "A(i,j,k) = B(i,j,k) * C(i,j,k)", "A(i,j,k) = B(i,j) * c(k)",
+                 "A(i,j,k) = B(i,j,l) * C(l,k)", "A(i,j) = B(i,j,k) * c(k)", "A(i,j) = B(i,j) + C(i,j)", "A(i,j) = B(i,k) * C(k,j)"]
+
+
+def output_exhaustive_cases(rng, index, n_shards, draws=3, values=gen.DYADIC):
+    """EVERY format of the output (all modes x all orderings: 48 for order 3, 8 for order 2) of a few
+    simple shapes, inputs all-compressed / all-dense / random, and input sets with empty slices and
+    fibres at every level (so position arrays get entries for parents that store nothing)."""
+    k = 0
+    for text in OUTPUT_SHAPES:
+        target, tree = gen.parse(text)
+        orders = gen.tensor_orders(target, tree)
+        for out_fmt in taco.all_formats(orders[target[1]]):
+            for variant in ("compressed", "dense", "random"):
+                k += 1
+                if k % n_shards != index:
+                    continue
+                if variant == "random":
+                    fm = gen.random_formats(rng, orders)
+                else:
+                    fm = {n: ("s" if variant == "compressed" else "d") * o for n, o in orders.items()}
+                fm[target[1]] = taco.fmt_text(*out_fmt)
+                for d in range(draws):
+                    case = build_case(rng, target, tree, dict(fm), values, origin="every-output-format", sizes_pool=[2, 3, 3, 4])
+                    if d > 0:
+                        dims = gen.tensor_dims(case.target, case.tree, case.sizes)
+                        for n in case.inputs:
+                            # whole leading slices empty: keep only coordinates whose first index is in a random subset
+                            keep = {x for x in range(dims[n][0]) if rng.random() < 0.5} if dims[n] else set()
+                            case.inputs[n] = {c: v for c, v in gen.random_entries(rng, dims[n], values, density=0.6).items()
+                                              if not c or c[0] in keep}
+                    yield case
